@@ -1,20 +1,22 @@
 #!/bin/bash
-# Sensitivity sweep: applies each patch of /verif/mutants (or the ones named on the command
+# Sensitivity sweep: applies each patch of "$VERIF"/mutants (or the ones named on the command
 # line) to /repo, runs the library's own tests and every property's quick check, records
 # which checks fire, and restores /repo. Never commits anything to /repo.
-# usage: tools/run_mutants.sh [-t tier] [patch ...]       results -> /verif/mutants/RESULTS.tsv
+# usage: tools/run_mutants.sh [-t tier] [patch ...]       results -> "$VERIF"/mutants/RESULTS.tsv
 set -u
 TIER=quick
 if [ "${1:-}" = "-t" ]; then TIER=$2; shift 2; fi
-cd /verif
-if [ -n "$(git -C /repo status --porcelain)" ]; then echo "/repo not clean"; exit 2; fi
-patches=("$@"); [ ${#patches[@]} -gt 0 ] || patches=(/verif/mutants/*.patch)
-out=/verif/mutants/RESULTS.tsv
+VERIF=$(cd "$(dirname "$0")/.." && pwd)
+REPO=${SWEEP_REPO:-/repo}
+cd "$VERIF"
+if [ -n "$(git -C "$REPO" status --porcelain)" ]; then echo "$REPO not clean"; exit 2; fi
+patches=("$@"); [ ${#patches[@]} -gt 0 ] || patches=("$VERIF"/mutants/*.patch)
+out="$VERIF"/mutants/RESULTS.tsv
 [ -f "$out" ] || printf "mutant\ttests\tC02\tC04\tC05\tC13\tC14\tC17\n" > "$out"
 for p in "${patches[@]}"; do
   name=$(basename "$p" .patch)
-  if ! git -C /repo apply "$p"; then echo "$name: patch does not apply"; continue; fi
-  t=$(cd /repo && CARGO_NET_OFFLINE=true cargo test --workspace --no-fail-fast --offline 2>&1 | grep -E "^test result" | awk '{p+=$4; f+=$6} END {print p"/"f}')
+  if ! git -C "$REPO" apply "$p"; then echo "$name: patch does not apply"; continue; fi
+  t=$(cd "$REPO" && CARGO_NET_OFFLINE=true cargo test --workspace --no-fail-fast --offline 2>&1 | grep -E "^test result" | awk '{p+=$4; f+=$6} END {print p"/"f}')
   row="$name\t$t"
   for id in C02 C04 C05 C13 C14 C17; do
     o=$(./check $id $TIER 2>&1); rc=$?
@@ -25,9 +27,9 @@ for p in "${patches[@]}"; do
     else row="$row\tE$rc"; echo "$o" | tail -5
     fi
   done
-  git -C /repo checkout -- .
+  git -C "$REPO" checkout -- .
   grep -v "^$name	" "$out" > "$out.tmp"; mv "$out.tmp" "$out"
   printf "$row\n" | tee -a "$out"
 done
-rm -f /verif/replays/*.json
-git -C /repo status --porcelain
+rm -f "$VERIF"/replays/*.json
+git -C "$REPO" status --porcelain
